@@ -658,7 +658,16 @@ Qed.
 
 (* ------------------------------------------------------------------ a resumed Conn starts in the finished state (F67) *)
 
-Theorem resumed_conn_starts_finished vmin vmax : handshake_start vmin vmax true = StartFinished.
+Theorem resumed_conn_starts_finished vmin vmax :
+  vmin <> v13 -> handshake_start vmin vmax true = StartFinished.
+Proof.
+  intros Hv. unfold handshake_start, handshake_start_gen. change resume_honoured_for_any_version with true.
+  cbn [andb]. rewrite Bool.orb_true_r. destruct (vmin =? v13) eqn:E; [apply N.eqb_eq in E; contradiction|reflexivity].
+Qed.
+
+(* whatever the options: finished, or refused before anything is written - never a new handshake *)
+Theorem resumed_conn_never_starts_a_handshake vmin vmax :
+  handshake_start vmin vmax true = (if vmin =? v13 then StartRefused else StartFinished).
 Proof.
   unfold handshake_start, handshake_start_gen. change resume_honoured_for_any_version with true.
   cbn [andb]. rewrite Bool.orb_true_r. reflexivity.
@@ -669,14 +678,17 @@ Qed.
 Theorem resume_ignored_refuted :
   handshake_start_gen false v12 v13 true = StartDualStack /\
   handshake_start_gen false v13 v13 true = StartNew13 /\
-  (forall vmin, handshake_start_gen false vmin v12 true = StartFinished).
+  handshake_start_gen false v12 v12 true = StartFinished.
 Proof. repeat split. Qed.
 
 Theorem resume_start_as_coded :
   if resume_honoured_for_any_version
-  then forall vmin vmax, handshake_start vmin vmax true = StartFinished
-  else exists vmin vmax, handshake_start vmin vmax true <> StartFinished.
-Proof. exact resumed_conn_starts_finished. Qed.
+  then forall vmin vmax, handshake_start vmin vmax true = StartFinished \/ handshake_start vmin vmax true = StartRefused
+  else exists vmin vmax, handshake_start vmin vmax true = StartDualStack \/ handshake_start vmin vmax true = StartNew13.
+Proof.
+  cbv beta iota delta [resume_honoured_for_any_version]. intros vmin vmax.
+  rewrite resumed_conn_never_starts_a_handshake. destruct (vmin =? v13); [right|left]; reflexivity.
+Qed.
 
 (* without a resume state the version range alone decides (unchanged) *)
 Theorem fresh_conn_start vmin vmax :
